@@ -927,6 +927,9 @@ class Process(StateMachine, persistence.Savable, metaclass=ProcessStateMachineMe
     def on_terminated(self) -> None:
         """Call when a terminal state is reached."""
         super().on_terminated()
+        if self._paused is not None and not self._paused.done():
+            # Release the task running step(), which is waiting for the process to be played
+            self._paused.set_result(True)
         self.close()
 
     @super_check
@@ -1339,6 +1342,9 @@ class Process(StateMachine, persistence.Savable, metaclass=ProcessStateMachineMe
         while self._paused is not None:
             # Checked again after waking up: the process may have been paused again before this task got to run
             await self._paused
+            if self.has_terminated():
+                # Killed (or failed) while paused
+                return
 
         try:
             self._stepping = True
